@@ -152,6 +152,29 @@ def parseEnc (name : String) (a : List String) : Option Enc :=
   | "genSpdm", [t, h, d] => do pure (.genSpdm (← parseType t) (← parseOptBytes h) (← parseBytes d))
   | _, _ => none
 
+/-- the Rust names of the variants (what `{:?}` prints) -/
+def cmdName : Cmd → String
+  | .reserved => "Reserved" | .setEndpointID => "SetEndpointID" | .getEndpointID => "GetEndpointID"
+  | .getEndpointUUID => "GetEndpointUUID" | .getMCTPVersionSupport => "GetMCTPVersionSupport"
+  | .getMessageTypeSupport => "GetMessageTypeSupport"
+  | .getVendorDefinedMessageSupport => "GetVendorDefinedMessageSupport"
+  | .resolveEndpointID => "ResolveEndpointID" | .allocateEndpointIDs => "AllocateEndpointIDs"
+  | .routingInformationUpdate => "RoutingInformationUpdate" | .getRoutingTableEntries => "GetRoutingTableEntries"
+  | .prepareForEndpointDiscovery => "PrepareForEndpointDiscovery" | .endpointDiscovery => "EndpointDiscovery"
+  | .discoveryNotify => "DiscoveryNotify" | .getNetworkID => "GetNetworkID" | .queryHop => "QueryHop"
+  | .resolveUUID => "ResolveUUID" | .queryRateLimit => "QueryRateLimit" | .requestTXRateLimit => "RequestTXRateLimit"
+  | .updateRateLimit => "UpdateRateLimit" | .querySupportedInterfaces => "QuerySupportedInterfaces"
+  | .unknown => "Unknown"
+
+def msgName : MsgType → String
+  | .control => "MCtpControl" | .spdm => "SpdmOverMctp" | .secured => "SecuredMessages"
+  | .pci => "VendorDefinedPCI" | .iana => "VendorDefinedIANA" | .invalid => "Invalid"
+
+def ccName : CC → String
+  | .success => "Success" | .error => "Error" | .errorInvalidData => "ErrorInvalidData"
+  | .errorInvalidLength => "ErrorInvalidLength" | .errorNotReady => "ErrorNotReady"
+  | .errorUnsupportedCmd => "ErrorUnsupportedCmd"
+
 def fieldOf (s : String) : Option Field :=
   match s with
   | "smbus.dest_read_write" => some SMBusHdr.destReadWrite
@@ -536,17 +559,17 @@ def handle (st : St) (line : String) : St × String :=
     | _, _ => (st, "bad-op")
   | ["conv", "cmd", b] =>
     match parseByte b with
-    | some b => (st, hexByte (Cmd.ofByte b).toByte)
+    | some b => (st, s!"{hexByte (Cmd.ofByte b).toByte} {cmdName (Cmd.ofByte b)}")
     | none => (st, "bad-op")
   | ["conv", "msg", b] =>
     match parseByte b with
-    | some b => (st, hexByte (MsgType.ofByte b).toByte)
+    | some b => (st, s!"{hexByte (MsgType.ofByte b).toByte} {msgName (MsgType.ofByte b)}")
     | none => (st, "bad-op")
   | ["conv", "cc", b] =>
     match parseByte b with
     | some b =>
       match CC.ofByte b with
-      | .ok c => (st, hexByte c.toByte)
+      | .ok c => (st, s!"{hexByte c.toByte} {ccName c}")
       | .err _ => (st, "bad-op")
       | .panic p => (st, showPanic p)
     | none => (st, "bad-op")
